@@ -117,7 +117,7 @@ fn pair_case(a: &RefName, b: &RefName) -> Value {
 
 /// The oracle for one ordered pair. `full` adds the LowerName / RrKey clauses.
 #[inline]
-pub fn judge_pair(a: &Ent, b: &Ent, full: bool, l: &mut Local) {
+pub fn judge_pair(a: &Ent, b: &Ent, full: bool, laws: bool, l: &mut Local) {
     let same_flag = a.r.fqdn == b.r.fqdn;
     let want_eq = same_flag && a.rank == b.rank;
     let got_eq = a.h == b.h;
@@ -151,8 +151,10 @@ pub fn judge_pair(a: &Ent, b: &Ent, full: bool, l: &mut Local) {
             l.violation(&format!("cmp:not-antisymmetric:{rel}"), "cmp(a,b) is not the reverse of cmp(b,a)", || pair_case(&a.r, &b.r));
         }
     }
-    if full {
+    if laws {
         crate::laws::judge_pair_laws(a, b, l);
+    }
+    if full {
         if a.h.partial_cmp(&b.h) != Some(got) {
             l.violation("cmp:partial_cmp-differs", "partial_cmp != Some(cmp)", || pair_case(&a.r, &b.r));
         }
@@ -218,14 +220,14 @@ pub fn judge_pair(a: &Ent, b: &Ent, full: bool, l: &mut Local) {
 }
 
 /// All ordered pairs of `ents`.
-pub fn run_pairs(ctx: &Ctx, ents: &[Ent], full: bool, tag: &str) {
+pub fn run_pairs(ctx: &Ctx, ents: &[Ent], full: bool, laws: bool, tag: &str) {
     let n = ents.len() as u64;
     ctx.add_count(&format!("pairs_{tag}"), n * n);
     ctx.add_count(&format!("names_{tag}"), n);
     ctx.par_run(n, 8, |i, l| {
         let a = &ents[i as usize];
         for b in ents {
-            judge_pair(a, b, full, l);
+            judge_pair(a, b, full, laws, l);
         }
         l.evals_add(n);
         if i % 20011 == 7 {
@@ -255,7 +257,7 @@ pub fn replay_pair(case: &Value, l: &mut Local) {
         Ordering::Equal => {}
     }
     l.eval();
-    judge_pair(&a, &b, true, l);
+    judge_pair(&a, &b, true, true, l);
 }
 
 /// Transitivity of cmp and eq over all triples of a small universe (both flags): with
